@@ -268,8 +268,10 @@ def run_seq(case):
             want = describe(args, kwargs, ignore)
             fn = fns[call.get('fn', 0)]
             falsy_result = False
+            want_desc = want
             if multi:
                 want = (call.get('fn', 0),) + want
+                want_desc = want
                 if repr(want) in cfg['_falsy'] and repr(want) not in cfg['_raising']:
                     want = cfg['_falsy'][repr(want)]
                     falsy_result = True
@@ -292,7 +294,9 @@ def run_seq(case):
                 break
             ran = counter['n'] - before
             if multi and repr(want) in cfg['_raising']:
-                violations.append({'rule': 'C16/wrong-result', 'sig': 'exception-swallowed',
+                prev = seen.get(repr(fn.__cache_key__(*args, **kwargs)))
+                f12 = prev is not None and separator_collision(prev[1], want_desc)      # known finding F12, by cause
+                violations.append({'rule': 'C16/wrong-result', 'sig': 'positional-None-vs-keyword' if f12 else 'exception-swallowed',
                                    'detail': 'call #%d %s returned %r; the function raises for these arguments' % (idx, json.dumps(call), got)})
                 break
             key = repr(fn.__cache_key__(*args, **kwargs))
@@ -303,7 +307,7 @@ def run_seq(case):
             if not ok_result:
                 prev = seen.get(key)
                 sig = 'shared-entry'
-                if separator_collision(got, want):
+                if separator_collision(got, want) or (prev is not None and separator_collision(prev[1], want_desc)):
                     sig = 'positional-None-vs-keyword'
                 violations.append({'rule': 'C16/wrong-result', 'sig': sig,
                                    'detail': 'call #%d f(*%r, **%r) returned %r, the function returns %r (entry first stored for %r)' % (
@@ -326,7 +330,7 @@ def run_seq(case):
                     break
                 if prev is not None:
                     probes['expired_recompute'] = probes.get('expired_recompute', 0) + 1
-                seen[key] = (sim.now, want)
+                seen[key] = (sim.now, want_desc)
             if expire == 0 and store_len(store, wrap) != 0:
                 violations.append({'rule': 'C16/expire-zero-stored', 'sig': wrap, 'detail': 'len == %d after call #%d' % (store_len(store, wrap), idx)})
                 break
